@@ -55,6 +55,11 @@ def make_target(lab):
                 raise StrRaises("boom")
             raise ZeroDivisionError(kind)
 
+        @P.callback
+        def cboom(self, kind):
+            # a method marked as a callback: what it raises is also raised in the thread that serves the request
+            return self.boom(kind)
+
         @P.oneway
         def oboom(self, kind):
             raise ValueError("oneway failure")
@@ -145,6 +150,11 @@ def hostile_bytes(item, ser, rng, seq, base="invoke"):
         data = L.patch(req, 6, "!B", rng.choice([0, 2, 3, 5, 7, 99, 255]))
     elif item == "undecodable_payload":
         junk = bytes(rng.randrange(256) for _ in range(30))
+        if ser == "marshal":
+            # (random bytes can start like a marshal container with a length of 2**31: decoding that keeps the interpreter busy
+            # for minutes inside one C call - a property of the marshal module, not of the daemon, and it would make this check
+            # depend on the speed of the machine; an unknown type code is refused at once)
+            junk = b"\x01" + junk[1:]
         data = L.build(mtype, rng.choice([0, protocol.FLAGS_COMPRESSED]), seq, s.serializer_id, junk)
         if data[8:10] != b"\x00\x02" and rng.random() < 0.5:
             data = L.patch(data, 8, "!H", protocol.FLAGS_COMPRESSED)       # claims to be compressed, is not
@@ -162,11 +172,11 @@ def hostile_bytes(item, ser, rng, seq, base="invoke"):
     elif item == "private_member":
         data = inv("target", rng.choice(["_secret", "__init__", "__class__", "__dict__"]), [])
     elif item == "raises_plain":
-        data = inv("target", "boom", ["plain"])
+        data = inv("target", rotate("boomplain", ["boom", "cboom"]), ["plain"])
     elif item == "raises_unserializable":
         data = inv("target", "boom", ["unser"])
     elif item == "raises_str_raises":
-        data = inv("target", "boom", ["strraise"])
+        data = inv("target", rotate("boomstr", ["cboom", "boom", "cboom"]), ["strraise"])
     elif item == "raises_in_oneway":
         data = inv("target", "oboom", ["x"], flags=protocol.FLAGS_ONEWAY)
     elif item == "raises_in_batch":
